@@ -370,13 +370,28 @@ package kernel
 //@   ensures [kernel-half] result != nil ==> 2 * SumOut(result.Outputs, len(result.Outputs) - 2) <= val(result.Inputs[0].Mint.Amount)
 //@   ensures [custodian] result != nil ==> val(result.Outputs[len(result.Outputs) - 2].Amount) == val(result.Inputs[0].Mint.Amount) / 10 * 4
 //@   ensures [positive] result != nil ==> forall k int :: 0 <= k && k < len(result.Outputs) ==> result.Outputs[k] != nil && val(result.Outputs[k].Amount) >= 1
+//@   -- [monotone]: output k goes to member k of the accepted view at `timestamp` (ListIdx: the last cached view before it) and carries that
+//@   -- member's share: a member with more work (RawAt: from the stored counters of the previous day) never gets less
+//@   ensures [monotone] result != nil ==> exists v int :: ListIdx(node.acceptedNodeStateSequences, timestamp, v) &&
+//@       len(result.Outputs) == len(node.acceptedNodeStateSequences[v].NodesWithoutState) + 2 &&
+//@       (forall i, j int :: 0 <= i && i < len(result.Outputs) - 2 && 0 <= j && j < len(result.Outputs) - 2 &&
+//@          old(RawAt(node.acceptedNodeStateSequences[v].NodesWithoutState, WorkDay(timestamp), i)) >=
+//@          old(RawAt(node.acceptedNodeStateSequences[v].NodesWithoutState, WorkDay(timestamp), j)) ==>
+//@          val(result.Outputs[i].Amount) >= val(result.Outputs[j].Amount))
+//@   hint return [view] result != nil ==> exists v int :: ListIdx(node.acceptedNodeStateSequences, timestamp, v) && accepted == node.acceptedNodeStateSequences[v].NodesWithoutState
+//@   hint return [mono-accepted] result != nil ==> len(result.Outputs) == len(accepted) + 2 &&
+//@       (forall i, j int :: 0 <= i && i < len(accepted) && 0 <= j && j < len(accepted) &&
+//@          old(RawAt(accepted, WorkDay(timestamp), i)) >= old(RawAt(accepted, WorkDay(timestamp), j)) ==> val(result.Outputs[i].Amount) >= val(result.Outputs[j].Amount))
 //@   hint after (*kernel.Node).distributeKernelMintByWorks PayeesOK(accepted)
-//@   hint after (*common.Transaction).AddScriptOutput SumOut(tx.Outputs, len(tx.Outputs)) ==
+//@   hint after (*common.Transaction).AddScriptOutput [all-positive] forall k int :: 0 <= k && k < len(tx.Outputs) ==> tx.Outputs[k] != nil && val(tx.Outputs[k].Amount) >= 1
+//@   hint after (*common.Transaction).AddScriptOutput [kernel-outs] forall k int :: 0 <= k && k < len(mints) && k < len(tx.Outputs) ==> val(tx.Outputs[k].Amount) == val(mints[k].Work)
+//@   hint after (*common.Transaction).AddScriptOutput [unfold] SumOut(tx.Outputs, len(tx.Outputs)) ==
 //@       SumOut(tx.Outputs, len(tx.Outputs) - 1) + val(tx.Outputs[len(tx.Outputs) - 1].Amount)
 //@   loop 0 invariant [tx] tx != nil && fresh(tx) && (cap(tx.Outputs) == 0 || fresh(tx.Outputs)) && len(tx.Outputs) == rangeindex + 1 && tx.Version == common.TxVersionHashSignature &&
 //@       len(tx.Inputs) == 1 && tx.Inputs[0] != nil && tx.Inputs[0].Mint != nil && val(tx.Inputs[0].Mint.Amount) == val(amount) && tx.Inputs[0].Mint.Batch == batch
 //@   loop 0 invariant [outs] forall k int :: 0 <= k && k <= rangeindex ==>
 //@       tx.Outputs[k] != nil && allocated(tx.Outputs[k]) && fresh(tx.Outputs[k]) && val(tx.Outputs[k].Amount) >= 1
+//@   loop 0 invariant [outs-eq] forall k int :: 0 <= k && k <= rangeindex ==> val(tx.Outputs[k].Amount) == val(mints[k].Work)
 //@   loop 0 invariant [mints] len(mints) == len(accepted) && (forall k int :: 0 <= k && k < len(mints) ==> MintOf(mints, accepted, k) && val(mints[k].Work) >= 1 && common.AddrPointsOK(&mints[k].Payee))
 //@   loop 0 invariant [mints-sum] SumWork(mints, len(mints)) <= val(kernel)
 //@   loop 0 invariant [unfold] SumWork(mints, rangeindex + 1) == SumWork(mints, rangeindex) + (rangeindex >= 0 ? val(mints[rangeindex].Work) : 0)
